@@ -272,39 +272,65 @@ def kernel_stub_mode():
     def svals(k):
         return np.array([2.0 ** (2 - i) for i in range(k)])      # 4, 2, 1, 1/2, ...: distinct, exactly representable
 
+    def eye(n):
+        return np.array([[Poly.const(1 if i == j else 0) for j in range(n)] for i in range(n)], dtype=object).reshape(n, n)
+
+    extra = {"vf": None}
+
+    def fresh_block(r, c):
+        """columns / rows that multiply zero singular values in the full decomposition: arbitrary, hence fresh indeterminates"""
+        if extra["vf"] is None:
+            from vk.symx.poly import VarFactory
+            extra["vf"] = VarFactory()
+            extra["vf"].n = 10 ** 6          # far away from the variables of the objects under test
+        return np.array([[extra["vf"].fresh() for _ in range(c)] for _ in range(r)], dtype=object).reshape(r, c)
+
     def stub_svd(a, full_matrices, opt_full_matrices):
-        if full_matrices:
-            raise NotImplementedError("kernel stub: full_matrices=True is outside the stubbed contract")
         m, n = a.shape
         k = min(m, n)
         s = svals(k)
         inv = np.array([Poly.const(Fraction(1) / Fraction(float(x))) for x in s], dtype=object)
         a = np.asarray(a, dtype=object)
         if m >= n:
-            return a * inv[None, :], s, np.array([[Poly.const(1 if i == j else 0) for j in range(n)] for i in range(n)], dtype=object)
-        return np.array([[Poly.const(1 if i == j else 0) for j in range(m)] for i in range(m)], dtype=object), s, inv[:, None] * a
-
-    def eye(n):
-        return np.array([[Poly.const(1 if i == j else 0) for j in range(n)] for i in range(n)], dtype=object)
+            u, vt = a * inv[None, :], eye(n)
+            if full_matrices and m > n:
+                u = np.concatenate([u, fresh_block(m, m - n)], axis=1)
+        else:
+            u, vt = eye(m), inv[:, None] * a
+            if full_matrices:
+                vt = np.concatenate([vt, fresh_block(n - m, n)], axis=0)
+        return u, s, vt
 
     class LinalgStub:
         LinAlgError = __import__("scipy").linalg.LinAlgError
 
         @staticmethod
         def qr(a, mode="full", **kw):
-            if mode != "economic":
-                raise NotImplementedError("kernel stub: only economic QR")
             a = np.asarray(a, dtype=object)
             m, n = a.shape
-            return (a, eye(n)) if m >= n else (eye(m), a)
+            if mode == "economic":
+                return (a, eye(n)) if m >= n else (eye(m), a)
+            if mode != "full":
+                raise NotImplementedError("kernel stub: QR mode " + mode)
+            # full: Q m x m, R m x n
+            if m <= n:
+                return eye(m), a
+            zero = np.array([[Poly.const(0)] * n for _ in range(m - n)], dtype=object).reshape(m - n, n)
+            return np.concatenate([a, fresh_block(m, m - n)], axis=1), np.concatenate([eye(n), zero], axis=0)
 
         @staticmethod
         def rq(a, mode="full", **kw):
-            if mode != "economic":
-                raise NotImplementedError("kernel stub: only economic RQ")
             a = np.asarray(a, dtype=object)
             m, n = a.shape
-            return (eye(m), a) if m <= n else (a, eye(n))
+            if mode == "economic":
+                return (eye(m), a) if m <= n else (a, eye(n))
+            if mode != "full":
+                raise NotImplementedError("kernel stub: RQ mode " + mode)
+            # full: R m x n, Q n x n
+            if m >= n:
+                return a, eye(n)
+            zero = np.array([[Poly.const(0)] * (n - m) for _ in range(m)], dtype=object).reshape(m, n - m)
+            return np.concatenate([zero, eye(m)], axis=1), np.concatenate([fresh_block(n - m, n), a], axis=0)
 
         def __getattr__(self, name):
             import scipy.linalg
